@@ -157,6 +157,9 @@ class Ref:
         except U.MissingKey as e:
             raise RefErr("KeyNotFoundError", e.key, e.candidates)
 
+    def _user(self, s, o):
+        return self.eval(s["spec"], o)
+
     def _dc(self, s, o):
         # members are evaluated in dir() order, i.e. sorted by name
         vals = {}
@@ -461,6 +464,8 @@ class Ref:
         elif k == "dc":
             for _, m in spec["members"]:
                 sub(m)
+        elif k == "user":
+            sub(spec["spec"])
         elif k == "map":
             for _, i in spec["iters"]:
                 sub(i)
@@ -610,7 +615,7 @@ def children(spec):
         return [m for _, m in spec["members"]]
     if k == "map":
         return [i for _, i in spec["iters"]] + [spec["body"]]
-    if k in ("with", "cached"):
+    if k in ("with", "cached", "user"):
         return [spec["spec"]]
     raise AssertionError(k)
 
